@@ -10,7 +10,8 @@ EXTENDS MorassOps, TLC, Json, IOUtils
 (* The machine explored by TLC: the usage grammar of C11.                  *)
 (***************************************************************************)
 CONSTANTS
-  ChunkSizes, Keys, MaxPush, MaxCycles, ACs, Concs,
+  ChunkSizes, Keys, MaxPush, MaxCycles, ACs, Concs, ACLs,
+  CleanUps,    \* TRUE: CleanUp calls are part of the explored histories
   AltKeys,     \* TRUE: the i-th push of a cycle has key 2 - (i % 2) (behaviour generation)
   CanonPull    \* TRUE: among equal keys Pull takes the least value (behaviour generation)
 
@@ -19,9 +20,9 @@ VARIABLES s, phase, cycle, res, hist
 vars == <<s, phase, cycle, res, hist>>
 
 Init ==
-  /\ \E cs \in ChunkSizes, a \in ACs, c \in Concs :
-       /\ s = InitState(cs, a, c)
-       /\ res = [op |-> "new", cs |-> cs, ac |-> a, conc |-> c]
+  /\ \E cs \in ChunkSizes, a \in ACs, c \in Concs, x \in ACLs :
+       /\ s = InitState(cs, a, c, x)
+       /\ res = [op |-> "new", cs |-> cs, ac |-> a, conc |-> c, acl |-> x]
   /\ phase = "fill" /\ cycle = 1
   /\ hist = <<res>>
 
@@ -61,7 +62,8 @@ PullEOF ==
   /\ IsEOF(s)
   /\ s' = PullEOFOf(s)
   /\ res' = [op |-> "eof"]
-  /\ IF s.ac
+  /\ IF ~s'.dir THEN phase' = "dead" /\ cycle' = MaxCycles + 1     \* AutoClean: the sorter is gone
+     ELSE IF s.ac
        THEN phase' = "fill" /\ cycle' = cycle + 1
        ELSE phase' = "eof" /\ UNCHANGED cycle
   /\ Log
@@ -73,11 +75,20 @@ Clear ==
   /\ res' = [op |-> "clear"]
   /\ Log
 
-Next == Push \/ Finalise \/ Pull \/ PullEOF \/ Clear
+\* CleanUp ends the life of a sorter at any quiescent point.
+CleanUp ==
+  /\ phase \in {"fill", "drain", "eof"} /\ cycle <= MaxCycles /\ res.op # "new"
+  /\ phase = "fill" => ~s.conc      \* not while background writers may be running
+  /\ s' = CleanUpOf(s)
+  /\ phase' = "dead" /\ cycle' = MaxCycles + 1
+  /\ res' = [op |-> "cleanup"]
+  /\ Log
+
+Next == Push \/ Finalise \/ Pull \/ PullEOF \/ Clear \/ (CleanUps /\ CleanUp)
 
 Spec == Init /\ [][Next]_vars
 
-View == <<s, phase>>
+View == <<s, phase, cycle>>
 
 (***************************************************************************)
 (* Refinement: the implementation state read as an abstract sorter.        *)
@@ -95,6 +106,12 @@ Refines == Abs!ASpec
 (***************************************************************************)
 (* Implementation-level invariants.                                        *)
 (***************************************************************************)
+\* C13, residue: draining with AutoClear leaves no run files; draining with AutoClean, or
+\* CleanUp, leaves no directory.
+NoRunFilesAfterAutoClearDrain == (res.op = "eof" /\ s.ac /\ s.dir) => s.disk = 0
+NoDirAfterAutoCleanDrain == (res.op = "eof" /\ s.acl) => ~s.dir
+NoDirAfterCleanUp == res.op = "cleanup" => ~s.dir
+DiskNonNegative == s.disk >= 0
 PoolBound == s.pool \in 0..2
 \* a buffer is always available to the caller at the start of a cycle
 ChunkReady == phase = "fill" => ~s.chunkNil
